@@ -5,11 +5,12 @@
 package main
 
 import (
-		"flag"
+	"context"
+	"flag"
 	"fmt"
 	"os"
 	"sort"
-	
+
 	"github.com/canopy-network/canopy/fsm"
 	"github.com/canopy-network/canopy/lib"
 	"github.com/canopy-network/canopy/lib/crypto"
@@ -196,10 +197,10 @@ func historicalCases(r *sim.Rng, blocks int) {
 	}
 	defer n.Close()
 	type snap struct {
-		h      uint64
-		cap    uint64
-		dcap   uint64
-		scan   []*fsm.Validator
+		h    uint64
+		cap  uint64
+		dcap uint64
+		scan []*fsm.Validator
 	}
 	var snaps []snap
 	record := func() {
@@ -262,6 +263,26 @@ func historicalCases(r *sim.Rng, blocks int) {
 			txs = append(txs, sim.TxBytes(fsm.NewChangeParamTxUint64(sim.BLSKey(0).Priv, fsm.ParamSpaceVal, fsm.ParamMaxCommitteeSize, r.Pick(2, 3, 4, 5, 100), h, h+5, 1, 1, 10000, h, "")))
 		case 5: // governance: change the delegate cap (0 = unlimited)
 			txs = append(txs, sim.TxBytes(fsm.NewChangeParamTxUint64(sim.BLSKey(0).Priv, fsm.ParamSpaceVal, fsm.ParamMaximumDelegatesPerCommittee, r.Pick(0, 1, 2, 3), h, h+5, 1, 1, 10000, h, "")))
+		}
+		if b%3 == 1 {
+			// the committee of the CURRENT height asked for in the middle of a block: uncommitted validator changes on the live
+			// state machine (a new top staker, a paused member), a committee question answered by the live state machine (its
+			// caches are warm with the uncommitted population), then LoadCommittee for the current height - the committed records
+			n.Enter()
+			last := snaps[len(snaps)-1]
+			fresh := sim.BLSKey(14 + b%2)
+			var mid [][]byte
+			mid = append(mid, sim.TxBytes(fsm.NewStakeTx(fresh.Priv, fresh.Pub, crypto.NewAddress(fresh.Addr), "tcp://mid", []uint64{1}, 50000, 1, 1, 10000, h, false, false, fmt.Sprintf("mid%d", b))))
+			g0 := sim.BLSKey(r.Intn(nv))
+			mid = append(mid, sim.TxBytes(fsm.NewPauseTx(g0.Priv, crypto.NewAddress(g0.Addr), 1, 1, 10000, h, fmt.Sprintf("midp%d", b))))
+			res := new(lib.ApplyBlockResults)
+			if aerr := n.FSM.ApplyTransactions(context.Background(), mid, res, false); aerr == nil {
+				_, _ = n.FSM.GetCommitteeMembers(1)
+				vs, e := n.FSM.LoadCommittee(1, n.FSM.Height())
+				emit("LoadCommittee-current-height-mid-block", last.cap, 1, false, last.scan, vs, e)
+				st.ByKind["mid-block-uncommitted-applied"] += len(res.Results)
+			}
+			n.FSM.Reset()
 		}
 		out := n.Apply(&sim.BlockSpec{Txs: txs})
 		if out.Err != nil {
